@@ -619,6 +619,14 @@ def holding(fn, user_call_kills=True, extra_kill=None):
                 if isinstance(v, dict) and v.get('k') in ('int', 'null'):
                     S2 = S2 | {('==', canon(e['lhs']), '0' if v.get('k') == 'null' else str(v['v']),
                                 frozenset(_mem_keys(e['lhs'])))}
+            # copies of values with a known constant: x = y where (y == c) holds
+            if e['op'] == '=' and 'rhs' in e:
+                v = strip(e['rhs'])
+                if isinstance(v, dict) and v.get('k') in ('var', 'member'):
+                    vc = canon(v)
+                    for a in S:
+                        if a[0] == '==' and a[1] == vc and a[2].lstrip('-').isdigit():
+                            S2 = S2 | {('==', canon(e['lhs']), a[2], frozenset(_mem_keys(e['lhs'])))}
             return S2
         if ev == 'decl' and 'init' in e:
             S2 = frozenset(a for a in S if ('var', e['name']) not in a[3])
@@ -959,3 +967,47 @@ def stale_after_callback(fn, is_callback, keep_kinds=()):
                 if v['name'] in names:
                     reports.append((e, v['name'], acc, names[v['name']]))
     return reports, objvars, markers
+
+
+# --------------------------------------------------------------------------
+# infeasible-edge pruning
+# --------------------------------------------------------------------------
+
+def prune_infeasible(fn, max_rounds=6):
+    """Removes branch edges whose condition contradicts facts that hold on
+    every path to the branch (constants stored into fields/variables, earlier
+    branch outcomes that nothing in between can change).  Sound: only edges
+    whose atom is refuted by must-facts are removed.  Returns #edges removed."""
+    from .core import NEG
+    removed = 0
+    for _ in range(max_rounds):
+        hd = holding(fn, user_call_kills=True)
+        changed = False
+        for b, blk in fn.blocks.items():
+            if not blk.term or len(blk.succ) != 2 or blk.term.get('cond') is None:
+                continue
+            if blk.term.get('cls') in ('SwitchStmt', 'MethodDispatch'):
+                continue
+            S = hd.get((b, len(blk.events)))
+            if S is None:
+                continue
+            for si in (0, 1):
+                if blk.succ[si] is None:
+                    continue
+                atoms = norm_cond(blk.term['cond'], si == 0)
+                refuted = False
+                for (op, lc, rc, l, r) in atoms:
+                    if op in NEG and atoms_imply(S, NEG[op], lc, rc):
+                        refuted = True
+                if refuted:
+                    blk.succ = [s for i, s in enumerate(blk.succ) if i != si]
+                    # keep polarity information for the surviving edge
+                    blk.term = dict(blk.term, pruned=('true' if si == 0 else 'false'), cls='Pruned')
+                    blk.term.pop('cond', None)
+                    removed += 1
+                    changed = True
+                    break
+        fn._preds = None
+        if not changed:
+            break
+    return removed
